@@ -46,6 +46,12 @@ func c13Run(env world.Env, tpb, decrease int64, rs [3]int64, prev int64, blocks 
 	if err := params.Validate(); err != nil {
 		panic("harness: parameter set rejected by the module's own validation: " + err.Error())
 	}
+	stipendIsDev := start == -1 // governance points the storage stipend at the developer-grants account
+	if stipendIsDev {
+		start = 0
+		da, _ := mintkeeper.GetDevGrantsAccount()
+		params.StorageStipendAddress = da.String()
+	}
 	k.SetParams(ctx, params)
 	if prev >= 0 {
 		k.SetMintedBlock(ctx, minttypes.MintedBlock{Height: ctx.BlockHeight(), Minted: prev, Denom: "ujkl"})
@@ -98,6 +104,9 @@ func c13Run(env world.Env, tpb, decrease int64, rs [3]int64, prev int64, blocks 
 		}
 		e := emission.Int64()
 		exp := map[string]int64{feeColl: rs[0] * e / 100, dev.String(): rs[1] * e / 100, stip: rs[2] * e / 100}
+		if stipendIsDev { // one account receives both shares
+			exp = map[string]int64{feeColl: rs[0] * e / 100, dev.String(): rs[1]*e/100 + rs[2]*e/100}
+		}
 		sum := int64(0)
 		for a, v := range exp {
 			sum += v
@@ -163,6 +172,7 @@ func c13Enum(thorough bool) mc.Enum {
 						jobs = append(jobs, job{rs, 0})
 						if i%16 == 0 { // the same run across the heights 9 -> 10 -> 11 and 99 -> 100 -> 101
 							jobs = append(jobs, job{rs, 8}, job{rs, 98}, job{rs, 14397}) // ... and the day boundary 14400 (6-second blocks)
+							jobs = append(jobs, job{rs, -1})                             // the stipend address is the developer-grants account
 						}
 					}
 					for _, j := range jobs {
